@@ -390,12 +390,22 @@ def cfg_checks(ctx, binp, spans):
         if cin["crystal"]["theta_deg"] == "auto" and fin.get("theta") is not None and is_finite_hex(s["crystal"]["theta"]):
             ctx.count("final:theta")
             a, b = f64_of_hex(s["crystal"]["theta"]), f64_of_hex(fin["theta"])
+            # what the conversion actually does: the stored angle IS optimum_theta on the PLACEHOLDER setup (signal converted in the
+            # theta = 0 crystal) -- the shadow construction made exactly that public call; bit for bit
+            ph = (o["shadow"]["oracles"] or {}).get("nm_theta")
+            placeholder_ok = ph is not None and ph == s["crystal"]["theta"]
+            if not placeholder_ok:
+                ctx.violation("S5", f"auto crystal angle: the setup has theta = {a!r} rad but optimum_theta on the placeholder setup (what the "
+                              f"conversion computes) returns {None if ph is None else f64_of_hex(ph)!r}",
+                              {"kind": "auto_not_placeholder_optimum", "field": "crystal.theta"}, detail)
             if a != b:
                 sig_ext = cin["signal"]["theta_deg"] is None
                 nonzero = f64_of_hex(s["signal"]["theta"]) != 0.0
                 ctx.violation("S5", f"auto crystal angle: the setup has theta = {a!r} rad but crystal_setup.optimum_theta(&signal, &pump) on the "
                               f"finished setup returns {b!r} rad", {"kind": "auto_not_final_optimum", "field": "crystal.theta",
-                                                                    "signal_noncollinear": nonzero}, dict(detail, setup_theta=a, final_optimum=b,
+                                                                    "signal_noncollinear": nonzero,
+                                                                    "stored_is_placeholder_optimum": placeholder_ok},
+                              dict(detail, setup_theta=a, final_optimum=b,
                                                                                                           signal_given_by_external_angle=sig_ext))
         if cin["idler"] == "auto" and fin.get("idler") is not None:
             ctx.count("final:idler")
